@@ -48,11 +48,11 @@ ENVCALL = {"EnvCall"}
 REFUSALS = selcorr.ALLOWED | {"ValueError:focus", "Exception:overridable", "TypeError:tooled"} | ENVCALL
 
 
-def classify_probe(s, env, overridable=False):
+def classify_probe(s, env, overridable=False, probe_type=None):
     """create + activate + deactivate a probe; exception class of the refusal"""
     import ptera
     try:
-        prb = ptera.probing(s, env=env, overridable=overridable)
+        prb = ptera.probing(s, env=env, overridable=overridable, probe_type=probe_type)
         prb.__enter__()
         prb.__exit__(None, None, None)
         return {"ok": True}
@@ -60,7 +60,8 @@ def classify_probe(s, env, overridable=False):
         r = selcorr.err(e)
         if r["err"] == "ValueError" and "Unsupported focus pattern" in r.get("msg", ""):
             return {"err": "ValueError:focus"}
-        if r["err"] == "Exception" and "OverridableProbe must use" in r.get("msg", ""):
+        if r["err"] == "Exception" and ("OverridableProbe must use" in r.get("msg", "")
+                                         or "OverridableProbe requires" in r.get("msg", "")):
             return {"err": "Exception:overridable"}
         if r["err"] == "TypeError" and ("cannot be tooled" in r.get("msg", "") or "only works on functions" in r.get("msg", "")):
             return {"err": "TypeError:tooled"}
@@ -190,14 +191,16 @@ def run(chk):
                               {"call": "probing", "string": s, "raised": p})
     # oracle (4): the defective selectors named by the property are refused, the well-formed accepted
     for s, ov, what in DEFECTIVE:
-        p = classify_probe(s, env, overridable=ov)
-        chk.count(("defective", s))
-        if "ok" in p:
-            chk.violation("oracle", "probing(%r) was accepted although it has a %s" % (s, what),
-                          {"call": "probing", "string": s, "overridable": ov})
-        elif p["err"] not in REFUSALS:
-            chk.violation("oracle", "probing(%r) raised %s: %s" % (s, p["err"], p.get("msg")),
-                          {"call": "probing", "string": s, "overridable": ov, "raised": p})
+        # whatever kind of probe is asked for (the default picks one from the selector)
+        for ptype in (None, "immediate", "total"):
+            p = classify_probe(s, env, overridable=ov, probe_type=ptype)
+            chk.count(("defective", s, ptype))
+            if "ok" in p:
+                chk.violation("oracle", "probing(%r, probe_type=%r) was accepted although it has a %s" % (s, ptype, what),
+                              {"call": "probing", "string": s, "overridable": ov, "probe_type": ptype})
+            elif p["err"] not in REFUSALS:
+                chk.violation("oracle", "probing(%r, probe_type=%r) raised %s: %s" % (s, ptype, p["err"], p.get("msg")),
+                              {"call": "probing", "string": s, "overridable": ov, "probe_type": ptype, "raised": p})
     for s in WELLFORMED:
         p = classify_probe(s, env)
         chk.count(("wellformed", s))
